@@ -33,7 +33,7 @@ def gen_world(rng, prop, long_dim=False):
         if letter == "t":
             kind = rng.choice(["int", "untyped_int"])
         if kind in ("int", "untyped_int"):
-            items = [1900 + 100 * k + j for j in range(ln)]
+            items = [(1900 if k % 2 == 0 else 2400) + 100 * k + j for j in range(ln)]  # inside / outside the 1700..2300 "calendar year" window
             dt = "int" if kind == "int" else None
         else:
             items = [f"{letter}{j}x" for j in range(ln)]
@@ -240,6 +240,10 @@ def _to_dataframe(frame, index):
     dimcols = [c["header"] for c in frame.cols if c["role"] == "dim"]
     if index and dimcols and all(c.get("ident") == "name" for c in frame.cols if c["role"] == "dim"):
         df = df.set_index(dimcols)
+    elif index and len(dimcols) == 1 and not df[dimcols[0]].isna().any():
+        # identified only through its items, held in a single-level index that carries a neutral name
+        df = df.set_index(dimcols[0])
+        df.index.name = "key"
     return df
 
 
